@@ -219,3 +219,10 @@ where
         })
         .map(|(idx, _)| idx)
 }
+
+/// Verification-only helper (guarded by `--cfg reinterpretcat_vrp_verif`): reseeds the thread-local
+/// repeatable random generator of the calling thread so that a harness can own the random stream.
+#[cfg(reinterpretcat_vrp_verif)]
+pub fn verif_reseed_repeatable(seed: u64) {
+    REPEATABLE_RNG.with(|t| *t.borrow_mut() = SmallRng::seed_from_u64(seed));
+}
